@@ -525,6 +525,8 @@ pub struct LawOutcome {
     pub rho_rel: f64,
     pub rho_abs: f64,
     pub ref_note: String,
+    /// draws examined by the atom test T5 (0 = not run)
+    pub atom_draws: u64,
 }
 
 /// where the samples come from: a library distribution (cloned per worker) or a harness closure (selftest)
@@ -533,6 +535,18 @@ pub enum Src<'a> {
     Fn(&'a (dyn Fn(&mut BaseRng, &mut [f64]) + Sync)),
 }
 impl Src<'_> {
+    /// m raw draws (single thread; used by the atom test)
+    pub fn raw(&self, m: usize, seed: u64) -> Vec<f64> {
+        let mut rng = BaseRng::from_env(hseed(&[seed, 0xA70]));
+        let mut v = vec![0.0f64; m];
+        for chunk in v.chunks_mut(4096) {
+            match self {
+                Src::Dyn(s) => s.fill(&mut rng, chunk),
+                Src::Fn(f) => f(&mut rng, chunk),
+            }
+        }
+        v
+    }
     pub fn hist(&self, edges: &[f64], n: u64, seed: u64) -> Hist {
         match self {
             Src::Dyn(s) => histogram(*s, edges, n, seed),
@@ -548,6 +562,79 @@ pub struct LawJob<'a> {
     pub n: u64,
     pub seed: u64,
     pub min_n: u64,
+}
+
+/// ln of the per-cell false-alarm budget of the atom test (1e-9 over at most 1e6 cells per invocation)
+pub const LN_ALPHA_ATOM: f64 = -34.54;
+
+/// T5, atom test for continuous laws: no single output value may occur more often than the reference law
+/// (with its slack) allows for the cell [prev(x) - δ, x + δ] of the output grid. For a value x with allowed
+/// mass p_hi and c occurrences among m draws the criterion is  m (m p_hi)^(c-1) / c! <= α_cell : since
+/// P(count(x) >= c) <= (m p_x)^c / c! = p_x · m (m p_x)^(c-1) / c!, summing over all x bounds the per-cell
+/// false-alarm probability by α_cell Σ p_x = α_cell whenever p_x <= p_hi(x). Catches rare constant
+/// fallbacks ("loop bounded, return the mean") whose mass is far below the resolution of T1–T3.
+pub fn atom_mass_hi(law: &RefLaw, sl: &Slack, ft: Ft, x: f64) -> f64 {
+    let prev = ft.next_down(x);
+    let (a, b) = (edge_bounds(law, sl, prev), edge_bounds(law, sl, x));
+    let via_p = b.p_hi - a.p_lo;
+    let via_q = a.q_hi - b.q_lo;
+    via_p.min(via_q).max(0.0).min(1.0)
+}
+
+fn ln_factorial(c: u64) -> f64 {
+    (2..=c).map(|k| (k as f64).ln()).sum()
+}
+
+/// criterion value: ln( m (m p)^(c-1) / c! ); reject when <= LN_ALPHA_ATOM
+pub fn atom_stat(c: u64, m: u64, p_hi: f64) -> f64 {
+    let mf = m as f64;
+    mf.ln() + (c as f64 - 1.0) * (mf * p_hi.max(1e-300)).ln() - ln_factorial(c)
+}
+
+/// runs of identical finite values with at least `min_c` occurrences (value, count), most frequent first
+pub fn atom_candidates(vals: &[f64], min_c: u64) -> Vec<(f64, u64)> {
+    let mut keys: Vec<u64> = vals
+        .iter()
+        .filter(|x| x.is_finite())
+        .map(|&x| {
+            let b = (x + 0.0).to_bits();
+            // order-preserving map of f64 bits
+            if b >> 63 == 1 { !b } else { b | (1u64 << 63) }
+        })
+        .collect();
+    keys.sort_unstable();
+    let mut out = vec![];
+    let mut i = 0;
+    while i < keys.len() {
+        let mut j = i + 1;
+        while j < keys.len() && keys[j] == keys[i] {
+            j += 1;
+        }
+        if (j - i) as u64 >= min_c {
+            let k = keys[i];
+            let b = if k >> 63 == 1 { k & !(1u64 << 63) } else { !k };
+            out.push((f64::from_bits(b), (j - i) as u64));
+        }
+        i = j;
+    }
+    out.sort_by(|a, b| b.1.cmp(&a.1));
+    out.truncate(32);
+    out
+}
+
+pub fn atom_rejections(law: &RefLaw, sl: &Slack, ft: Ft, cands: &[(f64, u64)], m: u64) -> Vec<Rejection> {
+    let mut r = vec![];
+    for &(x, c) in cands {
+        let p_hi = atom_mass_hi(law, sl, ft, x);
+        let st = atom_stat(c, m, p_hi);
+        if std::env::var("VERIF_DEBUG_ATOM").is_ok() {
+            eprintln!("atom cand x={x:e} c={c} m={m} p_hi={p_hi:e} stat={st:.2}");
+        }
+        if c as f64 / m as f64 > p_hi && st <= LN_ALPHA_ATOM {
+            r.push(Rejection { kind: "T5:atom".into(), idx: (x.to_bits() % 0x7fff_ffff) as usize, dir: 1, at: x, observed: c as f64 / m as f64, allowed_lo: 0.0, allowed_hi: p_hi, stat: -st });
+        }
+    }
+    r
 }
 
 pub fn check_law(job: &LawJob) -> LawOutcome {
@@ -567,6 +654,28 @@ pub fn check_law(job: &LawJob) -> LawOutcome {
             if first.iter().any(|f| f.same_stat(r)) {
                 confirmed.push(r.clone());
             }
+        }
+    }
+    // T5 atom test (continuous, non-degenerate references only)
+    let mut first = first;
+    let mut atom_draws = 0u64;
+    if !job.law.discrete && job.law.lo != job.law.hi && job.n >= (1 << 20) {
+        let m: usize = if job.n >= 50_000_000 { 1 << 23 } else if job.n >= 8_000_000 { 1 << 21 } else { 1 << 20 };
+        atom_draws = m as u64;
+        let raw = job.sampler.raw(m, job.seed);
+        let cands = atom_candidates(&raw, 2);
+        let rej = atom_rejections(job.law, &sl, cell.ft, &cands, m as u64);
+        if !rej.is_empty() {
+            // confirm on an independent stream of 4m draws: count exact matches of the flagged values
+            let raw2 = job.sampler.raw(4 * m, hseed(&[job.seed, 0xC0F1]));
+            let c2: Vec<(f64, u64)> = rej.iter().map(|r| (r.at, raw2.iter().filter(|&&v| v == r.at).count() as u64)).collect();
+            let rej2 = atom_rejections(job.law, &sl, cell.ft, &c2, 4 * m as u64);
+            for r in &rej2 {
+                if rej.iter().any(|f| f.same_stat(r)) {
+                    confirmed.push(r.clone());
+                }
+            }
+            first.extend(rej);
         }
     }
     // non-triviality (DESIGN §3.2 / C02)
@@ -620,5 +729,6 @@ pub fn check_law(job: &LawJob) -> LawOutcome {
         rho_rel: sl.rho_rel,
         rho_abs: sl.rho_abs,
         ref_note: job.law.note.clone(),
+        atom_draws,
     }
 }
